@@ -3,6 +3,7 @@
 package ecdsa
 
 import (
+	"crypto/cipher"
 	"crypto"
 	"crypto/elliptic"
 	"io"
@@ -12,6 +13,7 @@ import (
 )
 
 var _ io.Reader
+var _ *cipher.StreamReader
 var _ big.Int
 
 // ---------------------------------------------------------------------------
@@ -204,14 +206,152 @@ func SpecBlindScalar(c elliptic.Curve, d Mathint, ctx string) Mathint {
 //@ assigns none
 //@ end
 
-// BlindKeySignWithContext: ASSUMED (trusted). The signing path (Sign, signGeneric: nonce generation from an
-// AES-CTR stream, rejection sampling without a bound) is not verified here; what the rate-limited client relies
-// on is stated: on success r and s are fresh integers in [1, N-1], and nothing pre-existing is written.
+// ---------------------------------------------------------------------------
+// Signing (C13, C12)
+
+// SpecSigWith(c, d, e, k, r, s): (r, s) is the ECDSA signature on the message representative e with private
+// scalar d and nonce k: r = (k*G).x mod N, s = k^-1 (e + d*r) mod N, both non-zero (FIPS 186-4 section 6.4).
 //
-//@ func BlindKeySignWithContext(rand io.Reader, skS *PrivateKey, skB *PrivateKey, hash []byte, context []byte) (r *big.Int, s *big.Int, err error)
-//@ trusted signing is not verified (see DESIGN.md, C13)
-//@ requires skS != nil && skS.Curve != nil && skS.X != nil && skS.Y != nil && skS.D != nil && skB != nil && skB.D != nil
-//@ ensures err == nil ==> r != nil && s != nil && r != s && fresh(r) && fresh(s) && BigVal(r) >= 1 && BigVal(s) >= 1 && BigVal(r) < ECOrder(skS.Curve) && BigVal(s) < ECOrder(skS.Curve)
-//@ ensures err != nil ==> r == nil && s == nil
+//@ spec
+func SpecSigWith(c elliptic.Curve, d, e, k, r, s Mathint) bool {
+	n := ECOrder(c)
+	return k >= 1 && k < n && r == ECBaseX(c, k)%n && r != 0 && s == ((d*r+e)*ModInv(k, n))%n && s != 0
+}
+
+// SpecSignedBy(c, d, e, r, s): (r, s) is a signature on e with private scalar d for some nonce.
+// (Introduced from SpecSigWith by axSignedByIntro; eliminated by the correctness theorem axECDSACorrect.)
+//
+//@ spec opaque
+func SpecSignedBy(c elliptic.Curve, d, e, r, s Mathint) bool { return false }
+
+//@ lemma auto trusted
+//@ ensures SpecSigWith(c, d, e, k, r, s) ==> SpecSignedBy(c, d, e, r, s)
+func axSignedByIntro(c elliptic.Curve, d, e, k, r, s Mathint) {}
+
+// ECDSA correctness over the abstract group (ASSUMED: a theorem about prime-order groups, independent of this
+// code): a signature made with scalar d verifies under the public key d*G, and its components are in [1, N-1].
+//
+//@ lemma auto trusted
+//@ ensures SpecSignedBy(c, d, e, r, s) && d >= 0 ==> r > 0 && s > 0 && r < ECOrder(c) && s < ECOrder(c) && SpecECDSAEq(c, ECBaseX(c, d), ECBaseY(c, d), e, r, s)
+func axECDSACorrect(c elliptic.Curve, d, e, r, s Mathint) {}
+
+// Fermat: for the prime order N, k^(N-2) is the inverse of k (ASSUMED).
+//
+//@ lemma auto trusted
+//@ ensures k > 0 && k < ECOrder(c) ==> ModExp(k, ECOrder(c)-2, ECOrder(c)) == ModInv(k, ECOrder(c))
+func axFermat(c elliptic.Curve, k Mathint) {}
+
+// SpecPkgOK: the package variable `one` holds 1 (set by the package initialiser; no function assigns it or
+// uses it as a receiver). A precondition of everything that generates nonces.
+//
+//@ spec
+func SpecPkgOK() bool { return one != nil && BigVal(one) == 1 }
+
+//@ func fermatInverse(k *big.Int, N *big.Int) (r *big.Int)
+//@ props C13 C16
+//@ safety C13
+//@ requires k != nil && N != nil
+//@ ensures r != nil && fresh(r) && BigVal(r) == ModExp(BigVal(k), BigVal(N)-2, BigVal(N))
 //@ assigns none
 //@ end
+
+// randFieldElement: a value in [1, N-1] (derived from BitSize/8+8 bytes of the reader), or the reader's error.
+//
+//@ func randFieldElement(c elliptic.Curve, rand io.Reader) (k *big.Int, err error)
+//@ props C13 C16
+//@ safety C13
+//@ requires c != nil && rand != nil && SpecPkgOK()
+//@ ensures err == nil ==> k != nil && fresh(k) && BigVal(k) >= 1 && BigVal(k) < ECOrder(c)
+//@ assigns none
+//@ end
+
+// signGeneric: on success (r, s) is the ECDSA signature on hashToInt(hash) with the key's scalar for some
+// nonce in [1, N-1]. (The rejection-sampling loops have no bound: termination is not claimed.)
+//
+//@ func signGeneric(priv *PrivateKey, csprng *cipher.StreamReader, c elliptic.Curve, hash []byte) (r *big.Int, s *big.Int, err error)
+//@ props C13 C12 C16
+//@ safety C13
+//@ requires priv != nil && priv.Curve == c && c != nil && priv.D != nil && csprng != nil && SpecPkgOK()
+//@ ensures err == nil ==> r != nil && s != nil && r != s && fresh(r) && fresh(s) && SpecSignedBy(c, old(BigVal(priv.D)), SpecHashToInt(string(hash), ECOrder(c)), BigVal(r), BigVal(s))
+//@ ensures err == nil ==> BigVal(r) > 0 && BigVal(s) > 0 && BigVal(r) < ECOrder(c) && BigVal(s) < ECOrder(c)
+//@ assigns none
+//@ loop 0 nonterminating vars(N *big.Int)
+//@   invariant N != nil && BigVal(N) == ECOrder(c) && BigVal(priv.D) == old(BigVal(priv.D)) && SpecPkgOK()
+//@ loop 1 nonterminating vars(N *big.Int)
+//@   invariant N != nil && BigVal(N) == ECOrder(c) && BigVal(priv.D) == old(BigVal(priv.D)) && SpecPkgOK()
+//@ end
+
+// MaybeReadByte: ASSUMED (it uses a select statement, outside the modelled subset): it may read one byte from
+// the reader and writes nothing else.
+//
+//@ func MaybeReadByte(r io.Reader)
+//@ trusted select statement is outside the modelled subset
+//@ assigns none
+//@ end
+
+//@ func Sign(rand io.Reader, priv *PrivateKey, hash []byte) (r *big.Int, s *big.Int, err error)
+//@ props C13 C12 C16
+//@ safety C13
+//@ requires rand != nil && priv != nil && priv.Curve != nil && priv.D != nil && SpecPkgOK()
+//@ ensures err == nil ==> r != nil && s != nil && r != s && fresh(r) && fresh(s) && SpecSignedBy(priv.Curve, old(BigVal(priv.D)), SpecHashToInt(string(hash), ECOrder(priv.Curve)), BigVal(r), BigVal(s))
+//@ ensures err == nil ==> BigVal(r) > 0 && BigVal(s) > 0 && BigVal(r) < ECOrder(priv.Curve) && BigVal(s) < ECOrder(priv.Curve)
+//@ assigns none
+//@ end
+
+// BlindKeySignWithContext signs with the scalar d * blind mod N, where blind is the same blinding factor that
+// BlindPublicKeyWithContext applies to the public key (C12).
+//
+//@ func BlindKeySignWithContext(rand io.Reader, skS *PrivateKey, skB *PrivateKey, hash []byte, context []byte) (r *big.Int, s *big.Int, err error)
+//@ props C12 C13 C16
+//@ safety C12
+//@ requires SpecPkgOK() && rand != nil && skS != nil && specKeyOK(&skS.PublicKey) && skS.D != nil && BigVal(skS.D) >= 0 && skB != nil && skB.D != nil && BigVal(skB.D) >= 0 && BitLenOf(BigVal(skB.D)) <= 1<<43
+//@ let c = skS.Curve
+//@ let k = SpecBlindScalar(skS.Curve, BigVal(skB.D), string(context))
+//@ ensures err == nil ==> r != nil && s != nil && r != s && fresh(r) && fresh(s)
+//@ ensures err == nil ==> SpecSignedBy(c, (BigVal(skS.D)*k)%ECOrder(c), SpecHashToInt(string(hash), ECOrder(c)), BigVal(r), BigVal(s))
+//@ ensures err == nil ==> BigVal(r) > 0 && BigVal(s) > 0 && BigVal(r) < ECOrder(c) && BigVal(s) < ECOrder(c)
+//@ assigns none
+//@ end
+
+// C12 / C13: a signature made with the blinded signing key verifies (with this package's verifier, which is
+// proved equal to the FIPS 186-4 equation) under the blinded public key, for every key pair d, d*G.
+//
+//@ lemma props C12 C13
+//@ reveal SpecVerifies
+func lemmaBlindSignVerifies(rnd io.Reader, skS, skB *PrivateKey, hash, context []byte) {
+	Vassume(SpecPkgOK() && rnd != nil && skS != nil && skS.Curve != nil && skS.X != nil && skS.Y != nil && skS.D != nil && BigVal(skS.D) >= 0)
+	Vassume(BigVal(skS.X) == ECBaseX(skS.Curve, BigVal(skS.D)) && BigVal(skS.Y) == ECBaseY(skS.Curve, BigVal(skS.D)))
+	Vassume(skB != nil && skB.D != nil && BigVal(skB.D) >= 0 && BitLenOf(BigVal(skB.D)) <= 1<<43)
+	c := skS.Curve
+	pkB, err := BlindPublicKeyWithContext(c, &skS.PublicKey, skB, context)
+	Vassume(err == nil)
+	r, s, err2 := BlindKeySignWithContext(rnd, skS, skB, hash, context)
+	Vassume(err2 == nil)
+	k := SpecBlindScalar(c, BigVal(skB.D), string(context))
+	n := ECOrder(c)
+	d := (BigVal(skS.D) * k) % n
+	Vassert(k >= 0 && d >= 0)
+	Vassert(BigVal(pkB.X) == ECBaseX(c, d) && BigVal(pkB.Y) == ECBaseY(c, d)) // k*(D*G) = (D*k mod N)*G
+	e := SpecHashToInt(string(hash), n)
+	Vassert(pkB.Curve == c)
+	Vassert(SpecSignedBy(c, d, e, BigVal(r), BigVal(s)))
+	Vassert(BigVal(r) > 0 && BigVal(s) > 0 && BigVal(r) < n && BigVal(s) < n)
+	Vassert(SpecECDSAEq(c, ECBaseX(c, d), ECBaseY(c, d), e, BigVal(r), BigVal(s)))
+	Vassert(SpecECDSAEq(c, BigVal(pkB.X), BigVal(pkB.Y), e, BigVal(r), BigVal(s)))
+	Vassert(SpecVerifies(c, BigVal(pkB.X), BigVal(pkB.Y), string(hash), BigVal(r), BigVal(s)))
+	ok := Verify(pkB, hash, r, s)
+	Vassert(ok == SpecVerifies(c, BigVal(pkB.X), BigVal(pkB.Y), string(hash), BigVal(r), BigVal(s)))
+	Vassert(ok)
+}
+
+// C13: a signature made by Sign verifies under the signer's public key.
+//
+//@ lemma props C13
+//@ reveal SpecVerifies
+func lemmaSignVerifies(rnd io.Reader, priv *PrivateKey, hash []byte) {
+	Vassume(SpecPkgOK() && rnd != nil && priv != nil && priv.Curve != nil && priv.X != nil && priv.Y != nil && priv.D != nil && BigVal(priv.D) >= 0)
+	Vassume(BigVal(priv.X) == ECBaseX(priv.Curve, BigVal(priv.D)) && BigVal(priv.Y) == ECBaseY(priv.Curve, BigVal(priv.D)))
+	r, s, err := Sign(rnd, priv, hash)
+	Vassume(err == nil)
+	Vassert(Verify(&priv.PublicKey, hash, r, s))
+}
